@@ -44,7 +44,15 @@ class Verifier:
         self.interp = Interp(self.sb, self.contracts, self.loops, models.build_models(), solve.feasibility_oracle)
         self.interp.spec_env.update(self.spec)
         self.interp.key_models = self.key_models
-        self.interp.spec_env['local'] = lambda name, default=None: self.interp.last_top_env.get(name, default) if default is not None else self.interp.last_top_env[name]
+        def _local(name, default=None):
+            gs = self.interp.ghost_frames
+            if gs and name in gs[-1]:
+                return gs[-1][name]         # ghost of a callee, at a call site of its contract
+            if default is not None:
+                return self.interp.last_top_env.get(name, default)
+            return self.interp.last_top_env[name]
+        self.interp.ghost_frames = []
+        self.interp.spec_env['local'] = _local
         for n, l in self.lemmas.items():
             self.interp.spec_env[n] = (lambda l: (lambda *a: l.instance(self.interp, a)))(l)
         for prep in self._prepare:
